@@ -235,7 +235,7 @@ type Expr struct {
 	Str    string
 	Bool   bool
 	Name   string   // EVar, ECall (head), EExt, ECtor (case), ERecord (type), EField (field)
-	Op     string   // EBin: + - * sadd < > <= >= && ||
+	Op     string   // EBin: + - * / sadd < > <= >= && ||
 	Arity  int      // ECall
 	Args   []*Expr  // operands / arguments / components; EIf cond; EMatch target; EField target; EPipe [lhs, stage]
 	Blocks []*Block // EIf [then, else]; EIfOnly [then]; ELam [body]; EBlockE [block]
@@ -1103,6 +1103,8 @@ func featureOf(e *Expr) string {
 			return "bin.sadd"
 		case "+", "-", "*":
 			return "bin.arith"
+		case "/":
+			return "bin.div"
 		}
 		return "bin.cmp"
 	case ECall:
